@@ -529,4 +529,11 @@ def c19_e(ctx: Ctx):
         out.append(ctx.ok(R, None, None, "no sub-command other than init / migrate creates directories", construct="signac.__main__|no-marker"))
     return out
 
-RULES = [c19_a, c19_b, c19_c, c19_d, c19_e]
+@rule("C19-f")
+def c19_f(ctx: Ctx):
+    """signac move / clone resolve their PROJECT argument as given (relative to the working directory), like get_project(path)."""
+    from . import cli
+    return cli.option_forwarding(ctx, "C19-f", ["main_move", "main_clone"])
+
+
+RULES = [c19_a, c19_b, c19_c, c19_d, c19_e, c19_f]
